@@ -279,6 +279,7 @@ class UnionDefine(StructDefine):
         cls.fields = self.fields
         cls.source = self.source
         cls.union = -1
+        cls.fkeys = defaultdict(default_formatter)
         try:
             s = [f.size() for f in cls.fields]
             cls.union = s.index(max(s))
